@@ -153,7 +153,7 @@ def lead_in_case(rng):
 
 def batch(ctx, n, tagged_every):
     for k in range(n):
-        c = lead_in_case(ctx.rng) if k == 0 else gen(ctx, ctx.rng)
+        c = lead_in_case(ctx.rng) if k == 0 else (fibre.splice_at_last_reference_case(ctx.rng, True, n_match=0) if k == 1 else gen(ctx, ctx.rng))
         run_one(ctx, c)
         if k % tagged_every == 0:
             tagged_positions(ctx, c)
